@@ -76,6 +76,14 @@ int main(void)
 	CHECK(cbc_check_length(&c1, RL), "record length RL is admissible");
 	size_t l1 = RL, l2 = RL;
 	unsigned char *p1 = cbc_decrypt(&c1, type, ver, rec1, &l1);
+	{
+		/* C08 (Lucky13): the range [min_len, max_len] handed to br_hmac_outCT decides how much is hashed in bulk and how
+		   much by the masked loop - it must depend on public values only (record length, MAC length, IV mode), never on
+		   the padding found in the record (seeded change C08g) */
+		size_t n0 = RL - (EXPL ? TOY_BLK : 0);
+		size_t emin = ((size_t)ML + 256 < n0 ? n0 - 256 : (size_t)ML) - ML, emax = n0 - 1 - ML;
+		CHECK(toy_outct_calls == 1 && toy_outct_min == emin && toy_outct_max == emax, "br_hmac_outCT is given the public plaintext-length range, whatever the record content");
+	}
 	unsigned char *p2 = ref_decrypt(&c2, type, ver, rec2, &l2);
 	CHECK((p1 == 0) == (p2 == 0), "cbc_decrypt accepts iff the RFC reference accepts");
 	if (p1 && p2) {
